@@ -37,7 +37,7 @@ func init() {
 		Rule: "matrix cause (14: EOF / EIO on either pipe, malformed audit line, output write error on a UserLogin / a UserAction / a hold-queue flush, either input path not a pipe or missing, " +
 			"cancellation as stand-in for SIGTERM/SIGINT, invalid login) x load (idle; mid-traffic, in a third of the runs after a short session whose records all preceded its login line; saturated = the line consumer is starved until the internal buffer is full, capacities {1,2,8,64,10000}, and the audit writer " +
 			"keeps feeding after the fault; sustained = the audit writer never pauses; other-pipe-without-writer = the pipe not involved in the cause has no writer attached yet) enumerated within each group of runs, " +
-			"x schedule policy x fault instant x (taped) one more accepted login right after the fault; after the fault a fair schedule (run-to-block, or uniformly random turns with the line consumer as the slow side under load) " +
+			"x log level {info, debug} x schedule policy x fault instant x (taped) one more accepted login right after the fault; after the fault a fair schedule (run-to-block, or uniformly random turns with the line consumer as the slow side under load) " +
 			"with the clock advancing at quiescence: RunNamedPipe must return within 5 simulated seconds and 50000 steps, with a non-nil error for failure causes; runs in which the injected write failure never happened are not judged; " +
 			"non-trivial = the fault fired while the daemon was running (and, for saturated, with the buffer full); distinct = distinct (cause, load, capacity, fault instant, schedule hash)",
 		Quick: 70 * 40, Thorough: 70 * 2500,
@@ -80,6 +80,11 @@ func scnC08(rc *RunCtx) {
 	rc.Cleanup(cancel)
 	ret := &doneFlag{}
 	args := []string{"audito-maldito", "-sshd-pipe-path", sshdPath, "-auditd-pipe-path", auditPath, "-app-events-output", disk.Path}
+	if t.Choose(3, "log.level") == 2 {
+		// the daemon's own verbosity must not matter for how it stops
+		args = append(args, "-log-level", "debug")
+		rc.Sim.Count("c08.log_level_debug")
+	}
 	rc.Sim.Spawn("daemon", func() { ret.set(cmd.RunNamedPipe(ctx, args, health.NewHealth(), quietZap())) })
 	pol := pipelinePolicy(rc)
 
